@@ -244,6 +244,20 @@ impl World {
             rows.retain(|x| x.surface != s);
             rows.push(r);
         }
+        // compound NUMERALS with declared units (二十 = 二/十): when such a word heads a joined run, the joined token is a
+        // new word without units - in modes A/B it must stay whole
+        for w in ["二十", "三百", "十万", "一二", "1万", "2千"] {
+            if let Some(ci) = rows.iter().position(|r| r.surface == w) {
+                let parts: Vec<Option<usize>> = w.chars().map(|c| rows.iter().position(|r| r.surface == c.to_string())).collect();
+                if parts.iter().all(|p| p.is_some()) && rng.chance(2, 3) {
+                    let ids = parts.iter().map(|p| p.unwrap().to_string()).collect::<Vec<_>>().join("/");
+                    rows[ci].mode = 'C';
+                    rows[ci].split_a = ids.clone();
+                    if rng.chance(1, 2) { rows[ci].split_b = ids; }
+                    rows[ci].cost = -2000;
+                }
+            }
+        }
         // an A-split compound so that merged nodes visibly lose their splits
         if rng.chance(1, 2) {
             let a = rows.iter().position(|r| r.surface.chars().all(|c| KATA.contains(&c)));
@@ -652,7 +666,7 @@ differs from the un-rewritten path; distinct by payload".into();
                     run.fail(idx, &key, &format!("text {:?} [{}] stack {:?}: {}", text, textkey, stack, what));
                 }
                 // A/B modes: the same relation must hold after splitting (plugins run before the split)
-                if run.opts.thorough || idx % 4 == 0 {
+                if run.opts.thorough || idx % 2 == 0 {
                     for mode in [Mode::A, Mode::B] {
                         if let (Ana::Ok(b2), Ana::Ok(w2)) = (analyse(&dics[0], &text, mode), analyse(&dics[stack.len()], &text, mode)) {
                             let mut st2 = vec![];
@@ -660,6 +674,21 @@ differs from the un-rewritten path; distinct by payload".into();
                                 let key = format!("{}@{:?}", key, mode);
                                 run.bump(&format!("oracle:{}", key));
                                 run.fail(idx, &key, &format!("mode {:?} text {:?} [{}] stack {:?}: {}", mode, text, textkey, stack, what));
+                            }
+                            // a token of the split result is either a token the plugins made or kept (it is in the mode-C
+                            // result of the same configuration, same range, same dictionary-side surface and part of speech) or
+                            // a unit of an un-merged word (it is in the split result WITHOUT the plugins): a merged token is a
+                            // new word without units, the split never cuts it and never invents tokens
+                            for t in &w2.nodes {
+                                let in_c = with.nodes.iter().any(|c| c.b == t.b && c.e == t.e && c.surface == t.surface && c.pos == t.pos);
+                                let in_plain = b2.nodes.iter().any(|c| c.b == t.b && c.e == t.e && c.surface == t.surface && c.pos == t.pos);
+                                if !in_c && !in_plain {
+                                    let key = format!("c14:split-of-merged@{:?}", mode);
+                                    run.bump(&format!("oracle:{}", key));
+                                    run.fail(idx, &key, &format!("mode {:?} text {:?} [{}] stack {:?}: token {}..{} (dictionary-side surface {:?}, POS {}) is neither a token of the mode-C result with the plugins nor a token of the mode-{:?} result without them: a merged token was split or a token was invented",
+                                        mode, text, textkey, stack, t.b, t.e, t.surface, t.pos, mode));
+                                    break;
+                                }
                             }
                             run.bump("ab-mode-checked");
                         }
